@@ -1,28 +1,53 @@
 CHECK = {
     "lean_module": "MidnightZK.Props.C10",
     "harness": "h-c10",
-    "translators": ["c10_constants"],
+    "translators": ["c10_constants", "c10_k256_wrapper"],
     "level": "proof",
-    "technique": "kernel-evaluated constant theorems over source-parsed constants + limb-level Montgomery proofs (omega carry chains, Mathlib ModEq) + Lucas primality certificate; value and limb correspondence vs Nat arithmetic",
+    "technique": "kernel-evaluated constant theorems over source-parsed constants + limb-level Montgomery proofs (omega carry chains, Mathlib ModEq) + Lucas primality certificate; "
+                 "for-all-lists theorems for the batched entry points (fold = sum/product mod p by induction; Montgomery's batch-inversion trick = element-wise inversion over any field by induction + grind; "
+                 "closed forms of repeated in-place operations); magnitude/normalisation model of the k256 wrapper over a source-parsed table of its method bodies; "
+                 "ring-level proof of the p = 5 mod 8 square root; value, limb and long-list correspondence vs Nat arithmetic",
     "rule": "prime fields {BLS12-381 Fq, Fp, Jubjub Fr, Curve25519 Fp/Scalar, secp256k1 Fp/Fq, BN254 Fq/Fr} x operand classes "
             "{0, 1, 2, 3, -1, -2, (p±1)/2, R, R^2, R^3, -R, limbs all-ones, 2^64k-1/2^64k/2^64k+1, band [p-2^64, p), random} "
-            "x all pairs for add/sub/mul, all unary ops, pow with boundary exponents, decoders at and around the modulus, "
-            "64/48-byte uniform patterns; limb-level: raw (also non-canonical) limb vectors x all pairs for the pure-Rust "
-            "Montgomery code; towers: coefficient vectors over boundary classes. Non-trivial = involves a random or band operand; "
+            "x all pairs for add/sub/mul, all unary ops, pow with boundary exponents (also 5..64-limb exponents), decoders at and around the modulus, "
+            "64/48-byte uniform patterns; batched: Sum, Sum<&T>, Product, Product<&T>, BatchInvert, BatchInverter x list classes "
+            "{all p-1, all limbs-all-ones, alternating 1/p-1, alternating 0/R, alternating p-1/p-2, random (LCG)} x lengths "
+            "{0,1,2,3,8,9,255,256,257,2047,2048,2049,4095,4096,4097,5000,8192,10000} (all lengths for the k256/dalek/curve25519 types in every tier, "
+            "a subset containing 2049, 4097, 5000 for the others in the quick tier); in-place chains (+=, -=, *= by value and by reference, double, square, neg, invert, "
+            "interleaved, up to 5000 steps / 10000 in the thorough tier, only the final value is read); un-normalised secp256k1 wrapper values "
+            "(results of invert/sqrt/sqrt_ratio/conditional_select/random/From<k256::FieldElement>) x every predicate/comparison/encoder/operator; "
+            "limb-level: raw (also non-canonical) limb vectors x all pairs for the pure-Rust Montgomery code; towers: coefficient vectors over boundary classes, "
+            "Sum/Product of the six extension types over lists up to 5000 vs the fold. Non-trivial = involves a random or band operand, or a list/chain; "
             "distinctness by hash of the request line",
     "explanation": "Lean theorems: every published constant satisfies its defining equation (kernel evaluation over constants "
                    "re-parsed from the Rust sources on every run); the limb-level Montgomery reduce/mul/add/sub/neg/from_u512 of the "
                    "pure-Rust fields equal arithmetic mod p for all limb values; tower formulas equal products in the quotient ring; "
-                   "the BLS scalar modulus is prime. The model is tied to the code by running every public field operation of every "
-                   "exported field type on boundary classes and comparing with the model, value by value and limb by limb",
+                   "the BLS scalar modulus is prime; Sum/Product folds equal the sum/product of the integers mod p for every list; ff's batch inversion "
+                   "(Montgomery's trick, mirrored loop by loop) equals element-wise inversion over any field for every list; repeated in-place add/mul/double/square "
+                   "have their closed forms; every method body of k256/base_field.rs (re-parsed on every run) keeps the magnitude <= 1 / predicates-on-normalised-values "
+                   "discipline except the known From<k256::FieldElement> hole, and the normalising Sum never exceeds magnitude 1 while a lazy Sum fails exactly from 2048 terms; "
+                   "the curve25519 square root squares to its input given Euler's criterion and the kernel-checked constant 4*T_SQRT^4 = -1. "
+                   "The model is tied to the code by running every public field operation of every exported field type — including the batched entry points on lists "
+                   "that cross k256's magnitude budget (2047) and limb wrap (~4096), and in-place chains without intermediate serialisation — and comparing with the model "
+                   "value by value, limb by limb and list by list; each batched answer is also checked against a BigUint model inside the harness so that a failure is reported with its failing input. "
+                   "The body classification of the k256 wrapper is deliberately tight: renaming closure variables, normalize_weak instead of normalize, and Sum<&T> delegating to Sum<T> are accepted; "
+                   "any other rewrite of a method body is flagged for review (theorem k256_wrapper_normalisation_discipline fails; VIOLATION without failing input if the behaviour is unchanged)",
     "trusted_base": [
-        "blst field routines (C/assembly), k256, curve25519-dalek and halo2derive-generated arithmetic: specified as arithmetic mod p, checked by correspondence only",
-        "python translator translators/c10_constants.py (prints the literals of the Rust sources; cross-checked against the running constants by `const` lines)",
+        "blst field routines (C/assembly), k256, curve25519-dalek and halo2derive-generated arithmetic: specified as arithmetic mod p, checked by correspondence only; "
+        "k256's magnitude rules (field_impl.rs debug layer) are hand-modelled in Model/C10/Batch.lean and exercised through the debug assertions the harness profile keeps on",
+        "ff-0.13 BatchInvert/BatchInverter: hand-mirrored in Lean (batchInvGen), compared on every list class/length",
+        "python translators translators/c10_constants.py (prints the literals of the Rust sources; cross-checked against the running constants by `const` lines) "
+        "and translators/c10_k256_wrapper.py (regex classification of the method bodies of k256/base_field.rs; anything unrecognised is emitted as `unknown`)",
     ],
     "assumptions": [
-        "primality of every modulus other than the BLS12-381 scalar modulus is not proved (hypothesis where a theorem needs it)",
+        "primality of every modulus other than the BLS12-381 scalar modulus is not proved (hypothesis where a theorem needs it; Euler's criterion is a hypothesis of c25519_sqrt_spec_partial)",
+        "batch_invert_spec is stated over an abstract field; its instance modulo p is the executable model compared with the implementation, not a theorem (needs primality)",
     ],
-    "level_text": "Kernel-checked Lean theorems about source-parsed constants and an executable limb-level model of the pure-Rust Montgomery arithmetic, tower formulas and codecs (all limb values / all field elements), with the model checked against every exported field type on every run",
-    "level_note": "Trusted: Lean kernel, translator, harness and driver; blst/k256/dalek/halo2derive internals are modelled as arithmetic mod p and compared on boundary classes, not verified",
+    "level_text": "Kernel-checked Lean theorems about source-parsed constants, an executable limb-level model of the pure-Rust Montgomery arithmetic, tower formulas and codecs "
+                  "(all limb values / all field elements), the batched entry points (Sum/Product/batch inversion for all lists, in-place chains of any length) and the normalisation discipline of the "
+                  "secp256k1 wrapper (method bodies re-parsed from the source), with the model checked against every exported field type on every run, including long lists and chains that cross the "
+                  "lazy-reduction thresholds of the wrapped crates",
+    "level_note": "Trusted: Lean kernel, translators, harness and driver; blst/k256/dalek/halo2derive internals are modelled as arithmetic mod p (k256 additionally by its magnitude rules) and compared on "
+                  "boundary classes and list lengths, not verified; Bernstein-Yang inversion/Jacobi (ff_ext) are compared as black boxes (invert, legendre) only; primality of moduli other than the BLS scalar is assumed",
     "timeout": {"quick": 600, "thorough": 3000, "search": 900},
 }
